@@ -488,6 +488,10 @@ func c08ScanFile(c *Ctx, p *packages.Package, f *ast.File, rel string) ([]*c08Si
 						if path == "time" && c08TimeFuncs[x.Sel.Name] {
 							add("WallClock", fn, name, x, "")
 						}
+						if path == "time" && (x.Sel.Name == "Local" || x.Sel.Name == "LoadLocation") {
+							// the process's time zone (TZ, /etc/localtime)
+							add("OsCall", fn, name, x, "")
+						}
 						if c08MapOrderPkgs[path] {
 							add("MapOrderCall", fn, name, x, "")
 						}
@@ -502,6 +506,9 @@ func c08ScanFile(c *Ctx, p *packages.Package, f *ast.File, rel string) ([]*c08Si
 							add("MapOrderCall", fn, full, x, "")
 						case m.Pkg().Path() == "sync" && m.Name() == "Range":
 							add("MapOrderCall", fn, full, x, "")
+						case m.Pkg().Path() == "time" && m.Name() == "Local":
+							// time.Time.Local: renders an instant in the process's time zone
+							add("OsCall", fn, full, x, "")
 						case m.Pkg().Path() == "math/rand" || m.Pkg().Path() == "math/rand/v2":
 							add("Random", fn, full, x, "")
 						}
